@@ -114,7 +114,7 @@ func TestVPReplay(t *testing.T) {{
     return m.group(1), m.group(2).strip()
 
 
-NON_NATIVE = {"crash", "crash-partial", "crash-tail", "sched", "select", "preempt", "maporder", "rand"}
+NON_NATIVE = {"crash", "crash-partial", "crash-tail", "sched", "select", "preempt", "maporder", "rand", "ioerr"}
 
 
 def engine_replay(outdir, dirpath, entry, replay_path, want_id, want_kind):
